@@ -85,9 +85,19 @@ def panic_and_progress(rep, R_panic, R_loop):
               "the loop-progress rule does not separate `loop { if n == 7 { break } }` (no witness) from `while let Some(_) = it.next()` (witness): %s" % res, instance={"fixture": "spin / counted", "witnessed": res})
 
 
+def short_circuit(rep, R):
+    import layout
+    p = prog()
+    sites, n = layout.effectful_short_circuits(p, crates=("pasfmt_canary",), effects=("pasfmt_canary::Tok::set_content",), field_writes=())
+    where = sorted({c.body.npath.split("::")[-1] for c, _ in sites})
+    rep.check(where == ["visit_until_first"] and n >= 2, R, "fixture:effect-behind-any", "the short-circuit rule misses `iter_mut().any(|t| rewrite(t))` of the fixture or flags its clean twins: %s" % where,
+              instance={"fixture": "visit_until_first / visit_all / pure_any", "flagged": where})
+
+
 CANARIES = {
     "C01": lambda rep: trait_impls(rep, "C01.c"),
     "C04": lambda rep: panic_and_progress(rep, "C04.b", "C04.a"),
+    "C09": lambda rep: short_circuit(rep, "C09.j"),
     "C15": lambda rep: statics_and_types(rep, "C15.c"),
     "C16": lambda rep: (file_effects(rep, "C16.a"), output_discipline(rep, "C16.i")),
     "C18": lambda rep: statics_and_types(rep, "C18.a"),
